@@ -43,6 +43,8 @@ def step (s : S) (line : String) : S × String :=
     | some z =>
       match put s.cfg 1000 z s.st with
       | .ok (t, st) =>
+        -- the harness copies the data at once: the writer's pin is dropped immediately
+        let st := unpin st t.blk
         ({ s with st := st, tickets := t :: s.tickets }, s!"ok {s.tickets.length} {t.blk - st.released} {t.off}")
       | .err e st => ({ s with st := st }, s!"err {e}")
       | .stuck => (s, "stuck")
